@@ -28,21 +28,28 @@ func IDs() []string {
 }
 
 // Main is the entry point of the vcheck binary: `vcheck <id> quick|thorough` or `vcheck replay <file>`.
+// Out is the verdict stream (the process's real stdout). The code under test may print to os.Stdout (e.g. a warning
+// written with fmt.Printf instead of the logger); such text must never glue itself to a VIOLATION / KNOWN-FINDING line or
+// to the worker protocol, so os.Stdout is pointed at stderr for everything but the framework.
+var Out = os.Stdout
+
+func init() { os.Stdout = os.Stderr }
+
 func Main(root string, args []string) int {
 	if len(args) >= 2 && args[0] == "replay" {
 		b, err := os.ReadFile(args[1])
 		if err != nil {
-			fmt.Println("replay:", err)
+			fmt.Fprintln(Out, "replay:", err)
 			return 2
 		}
 		var rf replayFile
 		if err := json.Unmarshal(b, &rf); err != nil {
-			fmt.Println("replay:", err)
+			fmt.Fprintln(Out, "replay:", err)
 			return 2
 		}
 		def, ok := registry[rf.Property]
 		if !ok {
-			fmt.Println("replay: unknown property", rf.Property)
+			fmt.Fprintln(Out, "replay: unknown property", rf.Property)
 			return 2
 		}
 		r := NewRun(def.ID, rf.Tier, def.Level, root)
@@ -55,12 +62,12 @@ func Main(root string, args []string) int {
 		return r.Finish()
 	}
 	if len(args) < 2 {
-		fmt.Println("usage: vcheck <property> quick|thorough | vcheck replay <file>; properties:", IDs())
+		fmt.Fprintln(Out, "usage: vcheck <property> quick|thorough | vcheck replay <file>; properties:", IDs())
 		return 2
 	}
 	def, ok := registry[args[0]]
 	if !ok {
-		fmt.Println("unknown property", args[0])
+		fmt.Fprintln(Out, "unknown property", args[0])
 		return 2
 	}
 	r := NewRun(def.ID, args[1], def.Level, root)
